@@ -1,5 +1,7 @@
 /- helper lemmas about value files: FileInv / NoOrphan preservation (C01, C08) -/
 import DC.Properties.C03_Inv
+import DC.Proofs.Cull
+import DC.Proofs.Keys
 
 namespace DC.Cache
 
@@ -13,5 +15,1057 @@ structure Good (s : Cache) : Prop where
   snap : s.snap = none
   pending : s.pending = []
   created : s.created = []
+
+/-! ### the part of the state the file invariants talk about -/
+
+/-- projection of a state on the fields `Good` (minus `TableInv`) depends on -/
+structure Core where
+  rows : List Row
+  files : List (Nat × Content)
+  nfile : Nat
+  depth : Nat
+  snap : Option Snap
+  pending : List (Option Nat)
+  created : List Nat
+  cfg : Cfg
+  statistics : Bool
+
+def core (s : Cache) : Core :=
+  { rows := s.rows, files := s.files, nfile := s.nfile, depth := s.depth, snap := s.snap,
+    pending := s.pending, created := s.created, cfg := s.cfg, statistics := s.statistics }
+
+/-- "files consistent once the files listed in `cl` are removed": membership form of
+`FileInv ∧ NoOrphan` plus rowid uniqueness, with a pending cleanup list `cl`. -/
+structure PI (c : Core) (cl : List (Option Nat)) : Prop where
+  uid : ∀ a ∈ c.rows, ∀ b ∈ c.rows, a.rowid = b.rowid → a = b
+  ref : ∀ r ∈ c.rows, ∀ f, r.file = some f → some f ∉ cl ∧ ∃ ct, (f, ct) ∈ c.files ∧ ct.size = r.size
+  inj : ∀ a ∈ c.rows, ∀ b ∈ c.rows, ∀ f, a.file = some f → b.file = some f → a = b
+  fresh : ∀ p ∈ c.files, p.1 < c.nfile
+  nodup : (c.files.map (·.1)).Nodup
+  orphan : ∀ p ∈ c.files, (∃ r ∈ c.rows, r.file = some p.1) ∨ some p.1 ∈ cl
+  depth : c.depth = 0
+  snap : c.snap = none
+  pending : c.pending = []
+  created : c.created = []
+
+/-! ### `core` of the primitive steps -/
+
+@[simp] theorem core_rows (s : Cache) : (core s).rows = s.rows := rfl
+@[simp] theorem core_files (s : Cache) : (core s).files = s.files := rfl
+@[simp] theorem core_nfile (s : Cache) : (core s).nfile = s.nfile := rfl
+@[simp] theorem core_depth (s : Cache) : (core s).depth = s.depth := rfl
+@[simp] theorem core_snap (s : Cache) : (core s).snap = s.snap := rfl
+@[simp] theorem core_pending (s : Cache) : (core s).pending = s.pending := rfl
+@[simp] theorem core_created (s : Cache) : (core s).created = s.created := rfl
+@[simp] theorem core_cfg (s : Cache) : (core s).cfg = s.cfg := rfl
+@[simp] theorem core_statistics (s : Cache) : (core s).statistics = s.statistics := rfl
+
+@[simp] theorem core_log (s : Cache) (a : Act) : core (s.log a) = core s := rfl
+@[simp] theorem core_logSql (s : Cache) (a : String) : core (s.logSql a) = core s := rfl
+
+@[simp] theorem core_volume (s : Cache) : core s.volume.1 = core s := by
+  unfold volume; simp only; split <;> rfl
+
+theorem core_delRowQuiet (s : Cache) (id : Nat) :
+    core (s.delRowQuiet id) = { core s with rows := (core s).rows.filter (·.rowid != id) } := by
+  have h := delRowQuiet_rows s id
+  unfold delRowQuiet at h ⊢
+  split
+  · rfl
+  · rename_i hn
+    rw [hn] at h
+    simp only [core]; rw [← h]
+
+theorem core_delIn (ids : List Nat) : ∀ s : Cache,
+    core (s.delIn ids) = { core s with rows := (core s).rows.filter (fun r => !ids.contains r.rowid) } := by
+  intro s
+  have h1 := delIn_rows ids s
+  have h2 : ∀ (ids : List Nat) (s : Cache), (s.delIn ids).files = s.files ∧ (s.delIn ids).nfile = s.nfile ∧
+      (s.delIn ids).depth = s.depth ∧ (s.delIn ids).snap = s.snap ∧
+      (s.delIn ids).pending = s.pending ∧ (s.delIn ids).created = s.created ∧
+      (s.delIn ids).cfg = s.cfg ∧ (s.delIn ids).statistics = s.statistics := by
+    intro ids
+    induction ids with
+    | nil => intro s; simp [delIn]
+    | cons a t ih =>
+      intro s
+      have h3 := core_delRowQuiet s a
+      have := ih (s.delRowQuiet a)
+      simp only [core, Core.mk.injEq] at h3
+      simp only [delIn, List.foldl_cons] at this ⊢
+      grind
+  have := h2 ids s
+  simp only [core, Core.mk.injEq]
+  grind
+
+@[simp] theorem core_delRow (s : Cache) (id : Nat) :
+    core (s.delRow id) = { core s with rows := (core s).rows.filter (fun r => ![id].contains r.rowid) } :=
+  core_delIn [id] s
+
+@[simp] theorem core_restore (s : Cache) (p : Snap) :
+    core (s.restore p) = { core s with rows := p.rows } := rfl
+
+theorem core_fremove (s : Cache) (f : Nat) :
+    core (s.fremove f) = { core s with files := (core s).files.filter (·.1 != f) } := rfl
+
+theorem core_fremoveAll (fs : List (Option Nat)) : ∀ s : Cache,
+    core (s.fremoveAll fs) =
+      { core s with files := (core s).files.filter (fun p => !fs.contains (some p.1)) } := by
+  induction fs with
+  | nil =>
+    intro s
+    have : (core s).files.filter (fun p => !([] : List (Option Nat)).contains (some p.1)) = (core s).files := by
+      rw [List.filter_eq_self]; intros; rfl
+    rw [this]; rfl
+  | cons a t ih =>
+    intro s
+    cases a with
+    | none =>
+      have := ih s
+      simp only [fremoveAll, List.foldl_cons] at this ⊢
+      rw [this]
+      simp
+    | some f =>
+      have := ih (s.fremove f)
+      simp only [fremoveAll, List.foldl_cons] at this ⊢
+      rw [this, core_fremove]
+      simp only [List.filter_filter, Core.mk.injEq, true_and, and_true]
+      apply List.filter_congr
+      intro p _
+      simp [Bool.and_comm]
+      grind
+
+/-! ### steps that preserve `PI` -/
+
+theorem PI.cl_congr {c : Core} {cl cl2 : List (Option Nat)} (h : PI c cl)
+    (hc : ∀ f, some f ∈ cl2 ↔ some f ∈ cl) : PI c cl2 := by
+  constructor
+  · exact h.uid
+  · intro r hr f hf; have := h.ref r hr f hf; rw [hc]; exact this
+  · exact h.inj
+  · exact h.fresh
+  · exact h.nodup
+  · intro p hp; have := h.orphan p hp; rw [hc]; exact this
+  · exact h.depth
+  · exact h.snap
+  · exact h.pending
+  · exact h.created
+
+theorem PI.rows_congr {c : Core} {cl : List (Option Nat)} (h : PI c cl) (rows' : List Row)
+    (hc : ∀ x, x ∈ rows' ↔ x ∈ c.rows) : PI { c with rows := rows' } cl := by
+  constructor
+  · intro a ha b hb; exact h.uid a ((hc a).1 ha) b ((hc b).1 hb)
+  · intro r hr; exact h.ref r ((hc r).1 hr)
+  · intro a ha b hb; exact h.inj a ((hc a).1 ha) b ((hc b).1 hb)
+  · exact h.fresh
+  · exact h.nodup
+  · intro p hp
+    rcases h.orphan p hp with ⟨r, hr, hf⟩ | h2
+    · exact .inl ⟨r, (hc r).2 hr, hf⟩
+    · exact .inr h2
+  · exact h.depth
+  · exact h.snap
+  · exact h.pending
+  · exact h.created
+
+theorem PI.delIn {c : Core} {cl : List (Option Nat)} (h : PI c cl) (page : List Row)
+    (hp : ∀ r ∈ page, r ∈ c.rows) :
+    PI { c with rows := c.rows.filter (fun r => !(page.map (·.rowid)).contains r.rowid) }
+      (cl ++ page.map (·.file)) := by
+  have key : ∀ r ∈ c.rows, (page.map (·.rowid)).contains r.rowid = true ↔ r ∈ page := by
+    intro r hr
+    simp only [List.contains_iff_mem, List.mem_map]
+    constructor
+    · rintro ⟨x, hx, hxr⟩
+      rw [← h.uid x (hp x hx) r hr hxr]; exact hx
+    · intro h1; exact ⟨r, h1, rfl⟩
+  constructor
+  · intro a ha b hb
+    exact h.uid a (List.mem_filter.1 ha).1 b (List.mem_filter.1 hb).1
+  · intro r hr f hf
+    obtain ⟨hr1, hr2⟩ := List.mem_filter.1 hr
+    obtain ⟨h1, h2⟩ := h.ref r hr1 f hf
+    refine ⟨?_, h2⟩
+    simp only [List.mem_append, List.mem_map, not_or]
+    refine ⟨h1, ?_⟩
+    rintro ⟨x, hx, hxf⟩
+    have := h.inj x (hp x hx) r hr1 f hxf hf
+    subst this
+    simp at hr2
+    exact hr2 x hx rfl
+  · intro a ha b hb
+    exact h.inj a (List.mem_filter.1 ha).1 b (List.mem_filter.1 hb).1
+  · exact h.fresh
+  · exact h.nodup
+  · intro p hp'
+    rcases h.orphan p hp' with ⟨r, hr, hf⟩ | h2
+    · by_cases hrp : r ∈ page
+      · right; simp only [List.mem_append, List.mem_map]; right; exact ⟨r, hrp, hf⟩
+      · left; refine ⟨r, List.mem_filter.2 ⟨hr, ?_⟩, hf⟩
+        have : ¬ (page.map (·.rowid)).contains r.rowid = true := fun hc => hrp ((key r hr).1 hc)
+        simpa using this
+    · right; simp [h2]
+  · exact h.depth
+  · exact h.snap
+  · exact h.pending
+  · exact h.created
+
+theorem PI.ins {c : Core} {cl cl2 : List (Option Nat)} (h : PI c cl) (r : Row)
+    (hid : ∀ a ∈ c.rows, a.rowid ≠ r.rowid)
+    (hf : ∀ g, r.file = some g → some g ∈ cl ∧ ∃ ct, (g, ct) ∈ c.files ∧ ct.size = r.size)
+    (hc : ∀ f, some f ∈ cl2 ↔ some f ∈ cl ∧ r.file ≠ some f) :
+    PI { c with rows := c.rows ++ [r] } cl2 := by
+  constructor
+  · intro a ha b hb hab
+    simp only [List.mem_append, List.mem_singleton] at ha hb
+    rcases ha with ha | rfl <;> rcases hb with hb | rfl
+    · exact h.uid a ha b hb hab
+    · exact absurd hab (hid a ha)
+    · exact absurd hab.symm (hid b hb)
+    · rfl
+  · intro a ha f hfa
+    simp only [List.mem_append, List.mem_singleton] at ha
+    rcases ha with ha | rfl
+    · obtain ⟨h1, h2⟩ := h.ref a ha f hfa
+      exact ⟨fun h3 => h1 ((hc f).1 h3).1, h2⟩
+    · exact ⟨fun h3 => ((hc f).1 h3).2 hfa, (hf f hfa).2⟩
+  · intro a ha b hb f hfa hfb
+    simp only [List.mem_append, List.mem_singleton] at ha hb
+    rcases ha with ha | rfl <;> rcases hb with hb | rfl
+    · exact h.inj a ha b hb f hfa hfb
+    · exact absurd (hf f hfb).1 (h.ref a ha f hfa).1
+    · exact absurd (hf f hfa).1 (h.ref b hb f hfb).1
+    · rfl
+  · exact h.fresh
+  · exact h.nodup
+  · intro p hp
+    rcases h.orphan p hp with ⟨a, ha, hfa⟩ | h2
+    · exact .inl ⟨a, List.mem_append_left _ ha, hfa⟩
+    · by_cases hrp : r.file = some p.1
+      · exact .inl ⟨r, by simp, hrp⟩
+      · exact .inr ((hc p.1).2 ⟨h2, hrp⟩)
+  · exact h.depth
+  · exact h.snap
+  · exact h.pending
+  · exact h.created
+
+theorem PI.map {c : Core} {cl : List (Option Nat)} (h : PI c cl) (g : Row → Row)
+    (hg : ∀ r, (g r).rowid = r.rowid ∧ (g r).file = r.file ∧ (g r).size = r.size) :
+    PI { c with rows := c.rows.map g } cl := by
+  constructor
+  · intro a ha b hb hab
+    obtain ⟨a', ha', rfl⟩ := List.mem_map.1 ha
+    obtain ⟨b', hb', rfl⟩ := List.mem_map.1 hb
+    rw [(hg a').1, (hg b').1] at hab
+    rw [h.uid a' ha' b' hb' hab]
+  · intro a ha f hfa
+    obtain ⟨a', ha', rfl⟩ := List.mem_map.1 ha
+    rw [(hg a').2.1] at hfa
+    rw [(hg a').2.2]
+    exact h.ref a' ha' f hfa
+  · intro a ha b hb f hfa hfb
+    obtain ⟨a', ha', rfl⟩ := List.mem_map.1 ha
+    obtain ⟨b', hb', rfl⟩ := List.mem_map.1 hb
+    rw [(hg a').2.1] at hfa
+    rw [(hg b').2.1] at hfb
+    rw [h.inj a' ha' b' hb' f hfa hfb]
+  · exact h.fresh
+  · exact h.nodup
+  · intro p hp
+    rcases h.orphan p hp with ⟨a, ha, hfa⟩ | h2
+    · exact .inl ⟨g a, List.mem_map.2 ⟨a, ha, rfl⟩, by rw [(hg a).2.1]; exact hfa⟩
+    · exact .inr h2
+  · exact h.depth
+  · exact h.snap
+  · exact h.pending
+  · exact h.created
+
+theorem PI.fwrite {c : Core} (h : PI c []) (ct : Content) :
+    PI { c with files := c.files ++ [(c.nfile, ct)], nfile := c.nfile + 1 } [some c.nfile] := by
+  constructor
+  · exact h.uid
+  · intro r hr f hf
+    obtain ⟨-, ct', h1, h2⟩ := h.ref r hr f hf
+    have := h.fresh _ h1
+    refine ⟨?_, ct', List.mem_append_left _ h1, h2⟩
+    simp only [List.mem_singleton, Option.some.injEq]
+    simp only at this; omega
+  · exact h.inj
+  · intro p hp
+    simp only [List.mem_append, List.mem_singleton] at hp
+    rcases hp with hp | rfl
+    · have := h.fresh p hp; simp only at this ⊢; omega
+    · simp
+  · simp only [List.map_append, List.map_cons, List.map_nil]
+    rw [List.nodup_append]
+    refine ⟨h.nodup, by simp, ?_⟩
+    intro a ha b hb
+    simp only [List.mem_singleton] at hb
+    obtain ⟨p, hp, rfl⟩ := List.mem_map.1 ha
+    have := h.fresh p hp
+    omega
+  · intro p hp
+    simp only [List.mem_append, List.mem_singleton] at hp
+    rcases hp with hp | rfl
+    · rcases h.orphan p hp with h1 | h2
+      · exact .inl h1
+      · cases h2
+    · right; simp
+  · exact h.depth
+  · exact h.snap
+  · exact h.pending
+  · exact h.created
+
+theorem PI.finish {c : Core} {cl extra : List (Option Nat)} (h : PI c (cl ++ extra)) :
+    PI { c with files := c.files.filter (fun p => !cl.contains (some p.1)) } extra := by
+  constructor
+  · exact h.uid
+  · intro r hr f hf
+    obtain ⟨h1, ct, h2, h3⟩ := h.ref r hr f hf
+    simp only [List.mem_append, not_or] at h1
+    refine ⟨h1.2, ct, List.mem_filter.2 ⟨h2, ?_⟩, h3⟩
+    simpa using h1.1
+  · exact h.inj
+  · intro p hp; exact h.fresh p (List.mem_filter.1 hp).1
+  · exact h.nodup.sublist (List.filter_sublist.map _)
+  · intro p hp
+    obtain ⟨hp1, hp2⟩ := List.mem_filter.1 hp
+    rcases h.orphan p hp1 with h1 | h2
+    · exact .inl h1
+    · simp only [List.mem_append] at h2
+      rcases h2 with h2 | h2
+      · simp [h2] at hp2
+      · exact .inr h2
+  · exact h.depth
+  · exact h.snap
+  · exact h.pending
+  · exact h.created
+
+/-! ### `Good` in terms of `PI` -/
+
+theorem fileGet_of_mem {s : Cache} (hn : (s.files.map (·.1)).Nodup) {f : Nat} {ct : Content}
+    (h : (f, ct) ∈ s.files) : s.fileGet f = some ct := by
+  unfold fileGet
+  generalize s.files = l at hn h
+  induction l with
+  | nil => cases h
+  | cons p t ih =>
+    simp only [List.map_cons, List.nodup_cons] at hn
+    rcases List.mem_cons.1 h with rfl | h'
+    · simp
+    · have : p.1 ≠ f := by
+        intro hpf; apply hn.1; rw [hpf]; exact List.mem_map.2 ⟨(f, ct), h', rfl⟩
+      rw [List.find?_cons_of_neg (by simpa using this)]
+      exact ih hn.2 h'
+
+theorem mem_of_fileGet {s : Cache} {f : Nat} {ct : Content} (h : s.fileGet f = some ct) :
+    (f, ct) ∈ s.files := by
+  unfold fileGet at h
+  simp only [Option.map_eq_some_iff] at h
+  obtain ⟨p, hp, rfl⟩ := h
+  have h1 := List.mem_of_find?_eq_some hp
+  have h2 := List.find?_some hp
+  simp only [beq_iff_eq] at h2
+  subst h2
+  exact h1
+
+theorem pairwise_mem_cases {α} {R : α → α → Prop} {l : List α} (h : l.Pairwise R) {a b : α}
+    (ha : a ∈ l) (hb : b ∈ l) : a = b ∨ R a b ∨ R b a := by
+  induction l with
+  | nil => cases ha
+  | cons x xs ih =>
+    rw [List.pairwise_cons] at h
+    rcases List.mem_cons.1 ha with rfl | ha' <;> rcases List.mem_cons.1 hb with rfl | hb'
+    · exact .inl rfl
+    · exact .inr (.inl (h.1 b hb'))
+    · exact .inr (.inr (h.1 a ha'))
+    · exact ih h.2 ha' hb'
+
+theorem Good.pi {s : Cache} (h : Good s) : PI (core s) [] := by
+  constructor
+  · intro a ha b hb hab; exact rowidsAsc_eq_of_rowid h.tinv.tbl.asc ha hb hab
+  · intro r hr f hf
+    obtain ⟨ct, h1, h2⟩ := h.finv.ref r hr f hf
+    exact ⟨by simp, ct, mem_of_fileGet h1, h2⟩
+  · intro a ha b hb f hfa hfb
+    rcases pairwise_mem_cases h.finv.inj ha hb with h1 | h1 | h1
+    · exact h1
+    · exact absurd hfb (h1 f hfa)
+    · exact absurd hfa (h1 f hfb)
+  · exact h.finv.fresh
+  · exact h.finv.nodup
+  · intro p hp; exact .inl (h.noOrphan p hp)
+  · exact h.depth
+  · exact h.snap
+  · exact h.pending
+  · exact h.created
+
+theorem good_of_pi {s : Cache} (ht : TableInv s) (h : PI (core s) []) : Good s := by
+  refine ⟨ht, ⟨?_, ?_, h.fresh, h.nodup⟩, ?_, h.depth, h.snap, h.pending, h.created⟩
+  · intro r hr f hf
+    obtain ⟨-, ct, h1, h2⟩ := h.ref r hr f hf
+    exact ⟨ct, fileGet_of_mem h.nodup h1, h2⟩
+  · have hnd : s.rows.Nodup := ht.tbl.asc.nodup
+    refine List.Pairwise.imp_of_mem ?_ hnd
+    intro a b ha hb hab f hfa hfb
+    exact hab (h.inj a ha b hb f hfa hfb)
+  · intro p hp
+    rcases h.orphan p hp with h1 | h1
+    · exact h1
+    · cases h1
+
+/-! ### transactions at depth 0 -/
+
+/-- what a transaction body must establish (at depth 0) -/
+def BodyOK (s : Cache) (b : Body) (fresh : Option Nat) (extra : List (Option Nat)) : Prop :=
+  (b.ok = true ∧ PI (core b.s) (b.cleanup ++ extra)) ∨
+  (b.ok = false ∧ core b.s = core s ∧ PI (core s) (fresh :: extra))
+
+theorem transact_PI (s : Cache) (body : Cache → Body) (fresh : Option Nat)
+    (extra : List (Option Nat)) (hd : s.depth = 0)
+    (hb : BodyOK s (body (s.log .begin)) fresh extra) :
+    PI (core (s.transact body fresh).1) extra := by
+  unfold transact
+  simp only [hd, Nat.lt_irrefl, if_false]
+  rcases hb with ⟨hok, h⟩ | ⟨hok, hc, h⟩
+  · rw [if_pos hok]
+    simp only [core_fremoveAll, core_log]
+    exact h.finish
+  · rw [if_neg (by simp [hok])]
+    have hc' : { core (body (s.log .begin)).s with rows := s.takeSnap.rows } = core s := by
+      rw [hc]; rfl
+    cases fresh with
+    | none =>
+      simp only [core_log, core_restore, hc']
+      exact h.cl_congr (by simp)
+    | some f =>
+      have := core_fremoveAll [some f] (((body (s.log .begin)).s.restore s.takeSnap).log .rollback)
+      simp only [fremoveAll, List.foldl_cons, List.foldl_nil, core_log, core_restore, hc'] at this
+      simp only [this]
+      have h2 : PI (core s) ([some f] ++ extra) := h
+      have := h2.finish
+      simpa using this
+
+/-! ### INSERT / UPDATE -/
+
+/-- the row written by `INSERT` -/
+def newRow (s : Cache) (k : SqlVal) (raw : Bool) (now : Int) (c : Cols) : Row :=
+  { rowid := maxRowid s.rows + 1, key := k, raw := raw, storeT := now,
+    expT := c.expT, accT := now, accN := 0, tag := c.tag, size := c.size,
+    mode := c.mode, file := c.file, val := c.val }
+
+/-- the row transformation of `UPDATE … WHERE rowid = ?` -/
+def updF (rowid : Nat) (now : Int) (c : Cols) (r : Row) : Row :=
+  if r.rowid == rowid then
+    { r with storeT := now, expT := c.expT, accT := now, accN := 0, tag := c.tag,
+             size := c.size, mode := c.mode, file := c.file, val := c.val } else r
+
+theorem core_insRow (s : Cache) (k : SqlVal) (raw : Bool) (now : Int) (c : Cols) :
+    core (s.insRow k raw now c) = { core s with rows := (core s).rows ++ [newRow s k raw now c] } := rfl
+
+theorem core_updRow (s : Cache) (rowid : Nat) (now : Int) (c : Cols) :
+    core (s.updRow rowid now c) = { core s with rows := (core s).rows.map (updF rowid now c) } := rfl
+
+theorem PI_insRow {s : Cache} {cl cl2 : List (Option Nat)} (h : PI (core s) cl)
+    (k : SqlVal) (raw : Bool) (now : Int) (c : Cols)
+    (hf : ∀ g, c.file = some g → some g ∈ cl ∧ ∃ ct, (g, ct) ∈ s.files ∧ ct.size = c.size)
+    (hc : ∀ f, some f ∈ cl2 ↔ some f ∈ cl ∧ c.file ≠ some f) :
+    PI (core (s.insRow k raw now c)) cl2 := by
+  rw [core_insRow]
+  refine h.ins (newRow s k raw now c) ?_ hf hc
+  intro a ha
+  have := le_maxRowid s.rows a ha
+  show a.rowid ≠ maxRowid s.rows + 1
+  omega
+
+theorem PI_updRow {s : Cache} {cl cl2 : List (Option Nat)} (h : PI (core s) cl)
+    (old : Row) (hold : old ∈ s.rows) (now : Int) (c : Cols)
+    (hf : ∀ g, c.file = some g → some g ∈ cl ∧ ∃ ct, (g, ct) ∈ s.files ∧ ct.size = c.size)
+    (hc : ∀ f, some f ∈ cl2 ↔ (some f ∈ cl ∧ c.file ≠ some f) ∨ old.file = some f) :
+    PI (core (s.updRow old.rowid now c)) cl2 := by
+  rw [core_updRow]
+  have hne : ∀ f, old.file = some f → c.file ≠ some f := by
+    intro f h1 h2; exact (h.ref old hold f h1).1 (hf f h2).1
+  have h1 := h.delIn [old] (by intro r hr; simp at hr; subst hr; exact hold)
+  have h2 := h1.ins (cl2 := cl2) (updF old.rowid now c old) ?_ ?_ ?_
+  · refine (h2.rows_congr ((core s).rows.map (updF old.rowid now c)) ?_)
+    intro x
+    simp only [List.mem_map, List.mem_append, List.mem_filter, List.mem_singleton]
+    constructor
+    · rintro ⟨r, hr, rfl⟩
+      by_cases hid : r.rowid = old.rowid
+      · right; rw [h.uid r hr old hold hid]
+      · left
+        have : updF old.rowid now c r = r := by simp [updF, hid]
+        rw [this]; exact ⟨hr, by simpa using hid⟩
+    · rintro (⟨hx, hid⟩ | rfl)
+      · refine ⟨x, hx, ?_⟩
+        have hid : x.rowid ≠ old.rowid := by simpa using hid
+        simp [updF, hid]
+      · exact ⟨old, hold, rfl⟩
+  · intro a ha
+    have := (List.mem_filter.1 ha).2
+    simp only [updF, beq_self_eq_true, if_true]
+    simpa using this
+  · intro g hg
+    have hg : c.file = some g := by simpa [updF] using hg
+    obtain ⟨h3, h4⟩ := hf g hg
+    refine ⟨by simp [h3], ?_⟩
+    simpa [updF] using h4
+  · intro f
+    rw [hc f]
+    simp [updF]
+    grind
+
+/-! ### the other statements, `_cull`, `Disk.store` -/
+
+theorem PI_updExp {s : Cache} {cl : List (Option Nat)} (h : PI (core s) cl) (id : Nat) (e : Option Int) :
+    PI (core (s.updExp id e)) cl := by
+  have : core (s.updExp id e) = { core s with rows := List.map (fun (r : Row) => if r.rowid == id then { r with expT := e } else r) (core s).rows } := rfl
+  rw [this]
+  apply h.map
+  intro r; split <;> simp
+
+theorem touchPolicy_keep_fl (p : Policy) (now : Int) (r : Row) :
+    (touchPolicy p now r).rowid = r.rowid ∧ (touchPolicy p now r).file = r.file ∧
+    (touchPolicy p now r).size = r.size := by
+  cases p <;> simp [touchPolicy]
+
+theorem PI_updGet {s : Cache} {cl : List (Option Nat)} (h : PI (core s) cl) (id : Nat) (now : Int) :
+    PI (core (s.updGet id now)) cl := by
+  have : core (s.updGet id now) = { core s with rows := List.map (fun (r : Row) => if r.rowid == id then touchPolicy s.cfg.policy now r else r) (core s).rows } := rfl
+  rw [this]
+  apply h.map
+  intro r; split
+  · exact touchPolicy_keep_fl _ _ _
+  · simp
+
+theorem PI_updIncr {s : Cache} {cl : List (Option Nat)} (h : PI (core s) cl) (id : Nat) (now : Int)
+    (v : SqlVal) : PI (core (s.updIncr id now v)) cl := by
+  have : core (s.updIncr id now v) = { core s with rows := List.map (fun (r : Row) => if r.rowid == id then touchPolicy s.cfg.policy now { r with storeT := now, val := v } else r) (core s).rows } := rfl
+  rw [this]
+  apply h.map
+  intro r; split
+  · exact touchPolicy_keep_fl _ _ _
+  · simp
+
+theorem PI_delIn {s : Cache} {cl : List (Option Nat)} (h : PI (core s) cl) (page : List Row)
+    (hp : ∀ r ∈ page, r ∈ s.rows) :
+    PI (core (s.delIn (page.map (·.rowid)))) (cl ++ page.map (·.file)) := by
+  rw [core_delIn]; exact h.delIn page hp
+
+theorem PI_delRow {s : Cache} {cl : List (Option Nat)} (h : PI (core s) cl) (r : Row)
+    (hr : r ∈ s.rows) : PI (core (s.delRow r.rowid)) (cl ++ [r.file]) := by
+  have := PI_delIn h [r] (by intro x hx; simp at hx; subst hx; exact hr)
+  exact this
+
+theorem cullTail_PI (t : Cache) (cl : List (Option Nat)) (n : Nat) (pre : List (Option Nat))
+    (h : PI (core t) (pre ++ cl)) :
+    PI (core (cullTail t cl n).1) (pre ++ (cullTail t cl n).2) := by
+  unfold cullTail
+  split
+  · exact h
+  split
+  · exact h
+  simp only
+  split
+  · simpa using h
+  split
+  · simpa using h
+  · simp only [core_logSql]
+    rw [← List.append_assoc]
+    apply PI_delIn
+    · simpa using h
+    · intro r hr
+      have := selPolicy_mem hr
+      simpa using this
+
+theorem cullW_PI (s : Cache) (now : Int) (pre : List (Option Nat)) (h : PI (core s) pre) :
+    PI (core (s.cullW now).1) (pre ++ (s.cullW now).2) := by
+  by_cases h0 : s.cfg.cullLimit = 0
+  · have h1 : s.cullW now = (s, []) := by unfold cullW; simp [h0]
+    rw [h1]; simpa using h
+  · rw [cullW_eq s now h0]
+    split
+    · apply cullTail_PI; simpa using h
+    · apply cullTail_PI
+      simp only [core_logSql]
+      apply PI_delIn
+      · simpa using h
+      · intro r hr; exact (selExpired_mem hr).1
+
+theorem store_PI {s s1 : Cache} {E : Externals} {v : PyVal} {read : Bool} {c : Cols}
+    (hs : s.store E v read = .ok (s1, c)) (h : PI (core s) []) :
+    PI (core s1) [c.file] ∧
+    (∀ g, c.file = some g → ∃ ct, (g, ct) ∈ s1.files ∧ ct.size = c.size) := by
+  unfold store at hs
+  split at hs
+  · cases hs
+  · cases hs
+    exact ⟨h.cl_congr (by simp), by simp⟩
+  · rename_i mode ct _
+    cases hs
+    refine ⟨?_, ?_⟩
+    · exact h.fwrite ct
+    · intro g hg
+      simp only [Option.some.injEq] at hg
+      subst hg
+      exact ⟨ct, by simp, rfl⟩
+
+
+/-! ### reads -/
+
+@[simp] theorem core_fetchRow (s : Cache) (E : Externals) (r : Row) (read : Bool) :
+    core (s.fetchRow E r read).1 = core s := by
+  unfold fetchRow
+  split
+  · simp only; split <;> rfl
+  · rfl
+
+theorem fetchRow_snd_congr (s t : Cache) (E : Externals) (r : Row) (read : Bool)
+    (hc : s.cfg = t.cfg) (hf : s.files = t.files) :
+    (s.fetchRow E r read).2 = (t.fetchRow E r read).2 := by
+  unfold fetchRow
+  split
+  · split <;> simp_all [fileGet, log]
+  · simp [hc]
+
+theorem removeCommitted_zero (s : Cache) (f : Option Nat) (hd : s.depth = 0) :
+    s.removeCommitted f = s.fremoveAll [f] := by
+  unfold removeCommitted
+  cases f with
+  | none => rfl
+  | some f => simp [hd, fremoveAll]
+
+
+@[simp] theorem core_setMisses (s : Cache) (m : Int) : core { s with misses := m } = core s := rfl
+@[simp] theorem core_setHits (s : Cache) (m : Int) : core { s with hits := m } = core s := rfl
+
+/-- normalise `core` of a state that differs from `s` by ghost / statistics fields only -/
+macro "core_simp" : tactic =>
+  `(tactic| simp only [core_setMisses, core_setHits, core_logSql, core_log, core_fetchRow, core_volume])
+
+theorem selLive_mem {s : Cache} {k : SqlVal} {raw : Bool} {now : Int} {r : Row}
+    (h : s.selLive k raw now = some r) : r ∈ s.rows := List.mem_of_find?_eq_some h
+
+theorem selKey_mem {s : Cache} {k : SqlVal} {raw : Bool} {r : Row}
+    (h : s.selKey k raw = some r) : r ∈ s.rows := List.mem_of_find?_eq_some h
+
+/-! ### loops and small transaction shapes -/
+
+theorem delete_fst_fl (s : Cache) (E : Externals) (now : Int) (k : PyVal) :
+    (s.delete E now k).1 = (s.delitem E now k).1 := by
+  unfold delete
+  split <;> simp_all
+
+theorem store_keep {s s1 : Cache} {E : Externals} {v : PyVal} {read : Bool} {c : Cols}
+    (hs : s.store E v read = .ok (s1, c)) :
+    s1.rows = s.rows ∧ s1.cfg = s.cfg ∧ s1.count = s.count ∧ s1.size = s.size ∧
+    s1.statistics = s.statistics := by
+  unfold store at hs
+  split at hs
+  · cases hs
+  · cases hs; simp
+  · cases hs; simp [log]
+
+theorem deletePage_PI {s : Cache} (h : PI (core s) []) (page : List Row) (sel : String)
+    (hp : ∀ r ∈ page, r ∈ s.rows) : PI (core (s.deletePage page sel)) [] := by
+  rw [deletePage_eq]
+  apply transact_PI _ _ _ _ h.depth
+  left
+  refine ⟨pageBody_ok _ _ _, ?_⟩
+  rw [pageBody_cleanup]
+  unfold pageBody
+  simp only
+  split
+  · rename_i he
+    have : page = [] := List.isEmpty_iff.1 he
+    subst this
+    simpa using h
+  · simp only [core_logSql, List.append_nil]
+    have := PI_delIn (s := (s.log .begin).logSql sel) (cl := []) (by simpa using h) page hp
+    simpa using this
+
+theorem clearLoop_PI : ∀ (fuel : Nat) (s : Cache) (cur n : Nat), PI (core s) [] →
+    PI (core (clearLoop fuel s cur n).1) [] := by
+  intro fuel
+  induction fuel with
+  | zero => intro s cur n h; exact h
+  | succ k ih =>
+    intro s cur n h
+    unfold clearLoop
+    simp only
+    have h1 := deletePage_PI h ((s.rows.filter (fun r => r.rowid > cur)).take s.cfg.page) "pageRowid"
+      (fun r hr => (List.mem_filter.1 (List.mem_of_mem_take hr)).1)
+    split
+    · exact h1
+    · exact ih _ _ _ h1
+
+theorem evictLoop_PI (tag : SqlVal) : ∀ (fuel : Nat) (s : Cache) (cur n : Nat), PI (core s) [] →
+    PI (core (evictLoop tag fuel s cur n).1) [] := by
+  intro fuel
+  induction fuel with
+  | zero => intro s cur n h; exact h
+  | succ k ih =>
+    intro s cur n h
+    unfold evictLoop
+    simp only
+    have h1 := deletePage_PI h ((s.rows.filter (fun r => r.tag.eqv tag && r.rowid > cur)).take s.cfg.page) "pageTag"
+      (fun r hr => (List.mem_filter.1 (List.mem_of_mem_take hr)).1)
+    split
+    · exact h1
+    · exact ih _ _ _ h1
+
+theorem expireLoop_PI (now : Int) : ∀ (fuel : Nat) (s : Cache) (lo : Option Int) (n : Nat), PI (core s) [] →
+    PI (core (expireLoop now fuel s lo n).1) [] := by
+  intro fuel
+  induction fuel with
+  | zero => intro s lo n h; exact h
+  | succ k ih =>
+    intro s lo n h
+    unfold expireLoop
+    simp only
+    split
+    · apply deletePage_PI h
+      intro r hr
+      exact (List.mem_filter.1 (mem_of_mem_take_isort hr)).1
+    · apply ih
+      apply deletePage_PI h
+      intro r hr
+      exact (List.mem_filter.1 (mem_of_mem_take_isort hr)).1
+
+theorem cullLoop_PI : ∀ (fuel : Nat) (s : Cache) (n : Nat), PI (core s) [] →
+    PI (core (cullLoop fuel s n).1) [] := by
+  intro fuel
+  induction fuel with
+  | zero => intro s n h; exact h
+  | succ k ih =>
+    intro s n h
+    unfold cullLoop
+    simp only
+    have hv : PI (core s.volume.1) [] := by simpa using h
+    split
+    · exact hv
+    split
+    · apply transact_PI _ _ _ _ hv.depth
+      left
+      exact ⟨rfl, by simpa using hv⟩
+    · apply ih
+      apply transact_PI _ _ _ _ hv.depth
+      left
+      refine ⟨rfl, ?_⟩
+      simp only [core_logSql, List.append_nil]
+      have := PI_delIn (s := (s.volume.1.log .begin).logSql "selPolicy") (cl := []) (by simpa using hv)
+        (s.volume.1.selPolicy s.volume.1.cfg.batch) (fun r hr => selPolicy_mem hr)
+      simpa using this
+
+theorem queueHead_mem {s : Cache} {pfx : Option Str} {front : Bool} {r : Row}
+    (h : (if front then (s.queueRows pfx).head? else lastRow? (s.queueRows pfx)) = some r) :
+    r ∈ s.rows := by
+  have : r ∈ s.queueRows pfx := by
+    split at h
+    · exact List.mem_of_head? h
+    · exact lastRow?_mem h
+  unfold queueRows at this
+  exact (List.mem_filter.1 (mem_isort_ec.1 this)).1
+
+theorem removeCommitted_PI {t : Cache} {f : Option Nat} (ht : PI (core t) [f]) :
+    PI (core (t.removeCommitted f)) [] := by
+  rw [removeCommitted_zero _ _ ht.depth, core_fremoveAll]
+  exact PI.finish (cl := [f]) (extra := []) (by simpa using ht)
+
+theorem transact_log_PI {s : Cache} (h : PI (core s) []) (sel : String) :
+    PI (core (s.transact fun s => { s := s.logSql sel, out := .none }).1) [] := by
+  apply transact_PI _ _ _ _ h.depth
+  left
+  exact ⟨rfl, by simpa using h⟩
+
+theorem transact_delRow_cleanup_PI {s : Cache} (h : PI (core s) []) (sel : String) (r : Row)
+    (hr : r ∈ s.rows) :
+    PI (core (s.transact fun s =>
+      { s := (s.logSql sel).delRow r.rowid, out := .none, cleanup := [r.file] }).1) [] := by
+  apply transact_PI _ _ _ _ h.depth
+  left
+  refine ⟨rfl, ?_⟩
+  have := PI_delRow (s := (s.log .begin).logSql sel) (cl := []) (by simpa using h) r hr
+  simpa using this
+
+theorem transact_delRow_PI {s : Cache} (h : PI (core s) []) (sel : String) (r : Row)
+    (hr : r ∈ s.rows) :
+    PI (core (s.transact fun s =>
+      { s := (s.logSql sel).delRow r.rowid, out := .none }).1) [r.file] := by
+  apply transact_PI _ _ _ _ h.depth
+  left
+  refine ⟨rfl, ?_⟩
+  have := PI_delRow (s := (s.log .begin).logSql sel) (cl := []) (by simpa using h) r hr
+  simpa using this
+
+theorem pullLoop_PI (E : Externals) (now : Int) (pfx : Option Str) (front et tg : Bool) :
+    ∀ (fuel : Nat) (s : Cache), PI (core s) [] →
+    PI (core (pullLoop E now pfx front et tg fuel s).1) [] := by
+  intro fuel
+  induction fuel with
+  | zero => intro s h; exact h
+  | succ k ih =>
+    intro s h
+    unfold pullLoop
+    simp only
+    split
+    · exact transact_log_PI h _
+    · rename_i r hr
+      have hmem := queueHead_mem hr
+      split
+      · exact ih _ (transact_delRow_cleanup_PI h _ r hmem)
+      · have h1 := transact_delRow_PI h "selQueueHead" r hmem
+        have h2 : PI (core (((s.transact fun s =>
+            { s := (s.logSql "selQueueHead").delRow r.rowid, out := .none }).1.fetchRow E r false).1.removeCommitted r.file)) [] :=
+          removeCommitted_PI (by simpa using h1)
+        split
+        · exact ih _ h2
+        · exact h2
+
+theorem peekLoop_PI (E : Externals) (now : Int) (pfx : Option Str) (front et tg : Bool) :
+    ∀ (fuel : Nat) (s : Cache), PI (core s) [] →
+    PI (core (peekLoop E now pfx front et tg fuel s).1) [] := by
+  intro fuel
+  induction fuel with
+  | zero => intro s h; exact h
+  | succ k ih =>
+    intro s h
+    unfold peekLoop
+    simp only
+    split
+    · exact transact_log_PI h _
+    · rename_i r hr
+      have hmem := queueHead_mem hr
+      split
+      · exact ih _ (transact_delRow_cleanup_PI h _ r hmem)
+      · have h2 : PI (core ((s.transact fun s =>
+            { s := s.logSql "selQueueHead", out := .none }).1.fetchRow E r false).1) [] := by
+          simpa using transact_log_PI h "selQueueHead"
+        split
+        · exact ih _ h2
+        · exact h2
+
+theorem peekitemLoop_PI (E : Externals) (now : Int) (last et tg : Bool) :
+    ∀ (fuel : Nat) (s : Cache), PI (core s) [] →
+    PI (core (peekitemLoop E now last et tg fuel s).1) [] := by
+  intro fuel
+  induction fuel with
+  | zero => intro s h; exact h
+  | succ k ih =>
+    intro s h
+    unfold peekitemLoop
+    simp only
+    split
+    · apply transact_PI _ _ _ _ h.depth
+      right
+      exact ⟨rfl, rfl, h.cl_congr (by simp)⟩
+    · rename_i r hr
+      have hmem : r ∈ s.rows := by
+        split at hr
+        · exact lastRow?_mem hr
+        · exact List.mem_of_head? hr
+      split
+      · exact ih _ (transact_delRow_cleanup_PI h _ r hmem)
+      · have h2 : PI (core ((s.transact fun s =>
+            { s := s.logSql "selEdge", out := .none }).1.fetchRow E r false).1) [] := by
+          simpa using transact_log_PI h "selEdge"
+        split
+        · exact ih _ h2
+        · exact h2
+
+/-! ### shape of `_cull` and of a committed transaction (for C01) -/
+
+theorem cullTail_core (t : Cache) (cl : List (Option Nat)) (n : Nat) :
+    core (cullTail t cl n).1 = { core t with rows := (cullTail t cl n).1.rows } ∧
+    ∀ r ∈ (cullTail t cl n).1.rows, r ∈ t.rows := by
+  unfold cullTail
+  split
+  · exact ⟨rfl, fun r hr => hr⟩
+  split
+  · exact ⟨rfl, fun r hr => hr⟩
+  simp only
+  split
+  · refine ⟨?_, fun r hr => by simpa using hr⟩
+    rw [core_volume]; simp; rfl
+  split
+  · refine ⟨?_, fun r hr => by simpa using hr⟩
+    rw [core_logSql, core_volume]; simp; rfl
+  · refine ⟨?_, ?_⟩
+    · rw [core_logSql, core_delIn, core_logSql, core_volume]
+      simp [delIn_rows]
+    · intro r hr
+      simp only [logSql_rows, delIn_rows, volume_rows] at hr
+      exact (List.mem_filter.1 hr).1
+
+theorem cullW_core (s : Cache) (now : Int) :
+    core (s.cullW now).1 = { core s with rows := (s.cullW now).1.rows } ∧
+    ∀ r ∈ (s.cullW now).1.rows, r ∈ s.rows := by
+  by_cases h0 : s.cfg.cullLimit = 0
+  · have h1 : s.cullW now = (s, []) := by unfold cullW; simp [h0]
+    rw [h1]; exact ⟨rfl, fun r hr => hr⟩
+  · rw [cullW_eq s now h0]
+    split
+    · have := cullTail_core (s.logSql "selExpired") [] s.cfg.cullLimit
+      simpa using this
+    · have := cullTail_core (((s.logSql "selExpired").delIn ((s.selExpired now s.cfg.cullLimit).map (·.rowid))).logSql "delExpired")
+        ((s.selExpired now s.cfg.cullLimit).map (·.file))
+        (s.cfg.cullLimit - (s.selExpired now s.cfg.cullLimit).length)
+      obtain ⟨h1, h2⟩ := this
+      refine ⟨?_, ?_⟩
+      · rw [h1, core_logSql, core_delIn, core_logSql]
+      · intro r hr
+        have := h2 r hr
+        simp only [logSql_rows, delIn_rows] at this
+        exact (List.mem_filter.1 this).1
+
+theorem transact_snd (s : Cache) (body : Cache → Body) (fresh : Option Nat) (hd : s.depth = 0) :
+    (s.transact body fresh).2 = (body (s.log .begin)).out := by
+  unfold transact
+  simp only [hd, Nat.lt_irrefl, if_false]
+  split <;> rfl
+
+theorem transact_ok_core (s : Cache) (body : Cache → Body) (fresh : Option Nat) (hd : s.depth = 0)
+    (hok : (body (s.log .begin)).ok = true) :
+    core (s.transact body fresh).1 = { core (body (s.log .begin)).s with
+      files := (core (body (s.log .begin)).s).files.filter
+        (fun p => !(body (s.log .begin)).cleanup.contains (some p.1)) } := by
+  unfold transact
+  simp only [hd, Nat.lt_irrefl, if_false, hok, if_true, core_fremoveAll, core_log]
+
+/-! ### `set`: the row it writes (for C01) -/
+
+theorem put_ne_null_fl (E : Externals) (d : DiskKind) (k : PyVal) : (DC.put E d k).1 ≠ .null := by
+  cases d <;> cases k <;> simp [DC.put, Disk.put, JSONDisk.put] <;> split <;> simp
+
+theorem keyMatch_unique {rows : List Row} (hu : KeysUnique rows) {k : SqlVal} {raw : Bool} {a b : Row}
+    (ha : a ∈ rows) (hb : b ∈ rows) (hka : keyMatch k raw a = true) (hkb : keyMatch k raw b = true) :
+    a = b := by
+  simp only [keyMatch, Bool.and_eq_true, beq_iff_eq] at hka hkb
+  have h1 : a.key.eqv b.key = true :=
+    SqlVal.eqv_trans _ _ _ hka.1 (SqlVal.eqv_symm _ _ hkb.1)
+  have h2 : b.key.eqv a.key = true := SqlVal.eqv_symm _ _ h1
+  rcases pairwise_mem_cases hu ha hb with h | h | h
+  · exact h
+  · exact absurd ⟨h1, hka.2.trans hkb.2.symm⟩ h
+  · exact absurd ⟨h2, hkb.2.trans hka.2.symm⟩ h
+
+/-- the transaction body of `set` -/
+def setBody (dbk : SqlVal) (raw : Bool) (now : Int) (c : Cols) (s : Cache) : Body :=
+  if !bindable dbk then { s := s.log (.sqlFail "selKey"), out := .exc "UnicodeEncodeError", ok := false } else
+  let old := s.selKey dbk raw
+  let s := s.logSql "selKey"
+  if !c.bindable then
+    { s := s.log (.sqlFail (if old.isSome then "updRow" else "insRow")), out := .exc "UnicodeEncodeError", ok := false }
+  else
+  let (s, cl) := match old with
+    | some r => (s.updRow r.rowid now c, [r.file])
+    | none => (s.insRow dbk raw now c, [])
+  let (s, cl2) := s.cullW now
+  { s := s, out := .bool true, cleanup := cl ++ cl2 }
+
+theorem set_eq (s : Cache) (E : Externals) (now : Int) (k v : PyVal) (ttl : Option Int) (read : Bool)
+    (tag : SqlVal) :
+    s.set E now k v ttl read tag =
+      match s.store E v read with
+      | .error _ => (s, .exc "UnicodeEncodeError")
+      | .ok (s1, c) =>
+        s1.transact (fresh := c.file) (setBody (DC.put E s.cfg.disk k).1 (DC.put E s.cfg.disk k).2 now
+          { c with expT := ttl.map (now + ·), tag := tag }) := rfl
+
+/-- the table `set` leaves before its lazy cull -/
+def setRows (dbk : SqlVal) (raw : Bool) (now : Int) (c : Cols) (s : Cache) : List Row :=
+  match s.selKey dbk raw with
+  | some r => s.rows.map (updF r.rowid now c)
+  | none => s.rows ++ [newRow s dbk raw now c]
+
+theorem setBody_true (dbk : SqlVal) (raw : Bool) (now : Int) (c : Cols) (s : Cache)
+    (h : (setBody dbk raw now c s).out = .bool true) :
+    (setBody dbk raw now c s).ok = true ∧
+    ∃ R, core (setBody dbk raw now c s).s = { core s with rows := R } ∧
+      ∀ r ∈ R, r ∈ setRows dbk raw now c s := by
+  unfold setBody at h ⊢
+  split at h
+  · cases h
+  simp only at h ⊢
+  rename_i hb
+  simp only [hb]
+  split at h
+  · cases h
+  rename_i hb2
+  simp only [hb2]
+  refine ⟨rfl, ?_⟩
+  unfold setRows
+  simp only [Bool.false_eq_true, if_false]
+  cases hsel : s.selKey dbk raw with
+  | some r =>
+    simp only
+    obtain ⟨h1, h2⟩ := cullW_core ((s.logSql "selKey").updRow r.rowid now c) now
+    exact ⟨_, by rw [h1, core_updRow, core_logSql], h2⟩
+  | none =>
+    simp only
+    obtain ⟨h1, h2⟩ := cullW_core ((s.logSql "selKey").insRow dbk raw now c) now
+    exact ⟨_, by rw [h1, core_insRow, core_logSql], h2⟩
+
+
+theorem setRows_match {s : Cache} (hu : KeysUnique s.rows) {dbk : SqlVal} {raw : Bool} {now : Int}
+    {c : Cols} {r : Row} (hr : r ∈ setRows dbk raw now c s) (hk : keyMatch dbk raw r = true) :
+    r.mode = c.mode ∧ r.file = c.file ∧ r.val = c.val := by
+  unfold setRows at hr
+  split at hr
+  · rename_i old hold
+    have hold' : old ∈ s.rows := selKey_mem hold
+    have hko : keyMatch dbk raw old = true := by
+      have := List.find?_some hold; exact this
+    obtain ⟨x, hx, rfl⟩ := List.mem_map.1 hr
+    have hkx : keyMatch dbk raw x = true := by
+      unfold updF at hk; split at hk
+      · exact hk
+      · exact hk
+    have := keyMatch_unique hu hx hold' hkx hko
+    subst this
+    simp [updF]
+  · rename_i hnone
+    rcases List.mem_append.1 hr with h1 | h1
+    · have := List.find?_eq_none.1 hnone r h1
+      simp [hk] at this
+    · simp only [List.mem_singleton] at h1
+      subst h1
+      simp [newRow]
+
+
+theorem set_PI (s : Cache) (E : Externals) (now : Int) (k v : PyVal) (ttl : Option Int) (read : Bool)
+    (tag : SqlVal) (hP : PI (core s) []) : PI (core (s.set E now k v ttl read tag).1) [] := by
+  unfold set
+  simp only
+  cases hst : s.store E v read with
+  | error e => exact hP
+  | ok p =>
+    obtain ⟨s1, c⟩ := p
+    obtain ⟨hP1, hfile⟩ := store_PI hst hP
+    simp only
+    apply transact_PI _ _ _ _ hP1.depth
+    split
+    · right; exact ⟨rfl, rfl, hP1.cl_congr (by simp)⟩
+    split
+    · right; exact ⟨rfl, rfl, hP1.cl_congr (by simp)⟩
+    left
+    refine ⟨rfl, ?_⟩
+    simp only [selKey_log, List.append_nil]
+    split
+    · rename_i r hr
+      simp only
+      apply cullW_PI
+      refine PI_updRow (cl := [c.file]) ?_ r (selKey_mem hr) now _ ?_ ?_
+      · first | exact hP1 | (core_simp; exact hP1)
+      · intro g hg; exact ⟨List.mem_singleton.2 hg.symm, hfile g hg⟩
+      · intro f; simp; grind
+    · simp only
+      apply cullW_PI
+      refine PI_insRow (cl := [c.file]) ?_ _ _ _ _ ?_ ?_
+      · first | exact hP1 | (core_simp; exact hP1)
+      · intro g hg; exact ⟨List.mem_singleton.2 hg.symm, hfile g hg⟩
+      · intro f; simp; grind
 
 end DC.Cache
